@@ -646,8 +646,28 @@ func (b *BinaryExpression) Type() *Type {
 }
 
 func (b *BinaryExpression) infer() {
-	if b.T == EMPTY_ARRAY {
-		b.T = &Type{Name: ARRAY, Sub: ANY_TYPE, Fixed: true}
+	if b.T.hasEmpty() { // [] + [], [[]] + [[]]
+		t := *b.T.infer()
+		t.Fixed = true
+		b.T = &t
+	}
+}
+
+func (i *IndexExpression) infer() {
+	if i.T.hasEmpty() { // element of a literal that is an empty literal, e.g. [[]][0]
+		if inf, ok := i.Left.(inferrer); ok {
+			inf.infer()
+		}
+		i.T = i.Left.Type().Sub
+	}
+}
+
+func (d *DotExpression) infer() {
+	if d.T.hasEmpty() { // field of a literal that is an empty literal, e.g. {a:[]}.a
+		if inf, ok := d.Left.(inferrer); ok {
+			inf.infer()
+		}
+		d.T = d.Left.Type().Sub
 	}
 }
 
@@ -719,7 +739,7 @@ func (s *SliceExpression) Type() *Type {
 }
 
 func (s *SliceExpression) infer() {
-	if s.T == EMPTY_ARRAY { // slice of an empty array literal, e.g. [][:]
+	if s.T.hasEmpty() { // slice of an empty array literal, e.g. [][:], [[]][:]
 		if inf, ok := s.Left.(inferrer); ok {
 			inf.infer()
 		}
